@@ -126,7 +126,7 @@ def inputs_for(tier: str, rng) -> list[tuple[bytes, int]]:
         data.append(bytes(rng.randrange(256) for _ in range(rng.choice([1, 7, 64, 300, 1500]))))
     data += list(drivers.nested(rng, 100 if not big else 2000, 6))
     for n in range(40):
-        tail = rng.choice([b"GetProcAddress", b"VirtualAlloc", b"Invoke-Expression", b"kernel32.dll"])
+        tail = rng.choice(KW_TAILS)
         data.append(bytes(rng.choice(b"xyz ;") for _ in range(rng.choice([60, 120, 250]))) + b" " + tail)
         data.append(bytes(rng.choice(b"xyz ;") for _ in range(rng.choice([20, 40, 60, 120]))))
     out = []
@@ -134,6 +134,9 @@ def inputs_for(tier: str, rng) -> list[tuple[bytes, int]]:
         k = 10 if i % 3 else DEPTHS[(i // 3) % len(DEPTHS)]
         out.append((d[:4096], k))
     return out
+
+
+KW_TAILS = (b"GetProcAddress", b"VirtualAlloc", b"Invoke-Expression", b"kernel32.dll", b" smtp")
 
 
 class _Timeout(Exception):
@@ -193,10 +196,15 @@ def _worker(conn, chunk, hang_s):
 
     for i, (d, k) in chunk:
         conn.send(("start", i))
-        md = full if i % 5 == 0 else light
-        fresh = bytes(bytearray(d))          # a new buffer per session, released afterwards: addresses get re-used,
-        ev = session(md, fresh, k, hang_s)   # as they do in a long-running service (anything keyed on id() would show)
-        del fresh
+        md = full if (i % 5 == 0 or d.endswith(KW_TAILS)) else light
+        if md is full:
+            # a new buffer per session, released afterwards, followed by a shorter one on (probably) the same address:
+            # what a long-running service does all day; anything keyed on id() or left over from the previous scan shows
+            ev = history_pair(md, d, k, hang_s)
+        else:
+            fresh = bytes(bytearray(d))
+            ev = session(md, fresh, k, hang_s)
+            del fresh
         if i % 50 == 0:
             gc.collect()
         conn.send(("done", i, ev))
@@ -254,12 +262,56 @@ def run_sessions(indexed: list, hang_s: int) -> list:
     return sorted(results.items())
 
 
-def confirm_hang(data: bytes, k: int) -> bool:
-    """Re-run one session alone in a fresh process with the full 60 s allowance."""
+def history_pair(md, d: bytes, k: int, hang_s: int) -> list[str]:
+    """A session on a fresh copy of d, then - on the address just released, if the allocator cooperates - a session
+    on a slightly shorter buffer of the same allocation size class.  Returns the events of the first session, with the
+    failure of the second one appended in place of its last event."""
+    import gc
+
+    fresh = bytes(bytearray(d))
+    addr = id(fresh)
+    ev = session(md, fresh, k, hang_s)
+    n = len(fresh)
+    del fresh
+    r = (33 + n) % 16 or 16           # CPython: a bytes object of n bytes takes 33 + n bytes, rounded up to 16
+    if ev[-1] == VIEWS[-1] and r >= 2:
+        gc.collect()
+        # ask the allocator for buffers of that size class until it hands out the address just released (kept alive
+        # meanwhile so that it has to move on); fall back to the first one
+        held = []
+        echo = None
+        for _ in range(200):
+            cand = bytes(bytearray(b"y" * (n - (r - 1))))
+            if id(cand) == addr:
+                echo = cand
+                break
+            held.append(cand)
+        if echo is None:
+            echo = held[0]
+        del held
+        ev2 = session(md, echo, 10, hang_s)
+        del echo
+        if ev2[-1] != VIEWS[-1]:
+            ev = ev[:-1] + [ev2[-1].replace(":", ":after-previous-scan-", 1)]
+    return ev
+
+
+def first_failure(md, d: bytes, k: int) -> list[str]:
+    for _ in range(12):
+        ev = history_pair(md, d, k, 30)
+        if ev[-1] != VIEWS[-1]:
+            return ev
+    return ev
+
+
+def confirm_hang(data: bytes, k: int, history: bool = False) -> bool:
+    """Re-run one session alone in a fresh process with the full 60 s allowance (for a failure that needs the previous
+    scan, the pair is repeated a few times: whether the allocator re-uses the address is a matter of chance)."""
+    call = "p.first_failure(md, d, %d)" % k if history else "p.session(md, d, %d, 60)" % k
     code = ("import sys; sys.path.insert(0, %r); from harness import props_total as p; from harness.common import use_repo; use_repo();"
-            "from multidecoder.multidecoder import Multidecoder; print(p.session(Multidecoder(), bytes.fromhex(%r), %d, 60))") % (VERIF, data.hex(), k)
+            "from multidecoder.multidecoder import Multidecoder; md = Multidecoder(); d = bytes.fromhex(%r); print(%s)") % (VERIF, data.hex(), call)
     try:
-        pr = subprocess.run([PY, "-c", code], capture_output=True, timeout=90)
+        pr = subprocess.run([PY, "-c", code], capture_output=True, timeout=900 if history else 90)
         return b"timeout:" in pr.stdout
     except subprocess.TimeoutExpired:
         return True
@@ -296,7 +348,8 @@ def run(prop: str, tier: str) -> int:
     from concurrent.futures import ThreadPoolExecutor
 
     with ThreadPoolExecutor(NCPU) as ex:      # each suspected hang is re-run alone, in its own process, with 60 s
-        confirmed = dict(zip(timeouts, ex.map(lambda t: confirm_hang(*work[results[t - 1][0]]), timeouts)))
+        confirmed = dict(zip(timeouts, ex.map(
+            lambda t: confirm_hang(*work[results[t - 1][0]], history=any("after-previous-scan" in c for c in v[t])), timeouts)))
     for t, cl in rejected:
         i, ev = results[t - 1]
         data, k = work[i]
